@@ -249,6 +249,14 @@ func RecipCertText(spec string) string {
 		text = strings.Map(swap, text)
 	case "firstletter":
 		text = string(swap(rune(text[0]))) + text[1:]
+	case "crlf":
+		// the very certificate, wrapped at 64 columns with CR LF line ends
+		var b strings.Builder
+		for i := 0; i < len(text); i += 64 {
+			b.WriteString(text[i:min(i+64, len(text))])
+			b.WriteString("\r\n")
+		}
+		text = b.String()
 	case "wrapped":
 		var b strings.Builder
 		for i := 0; i < len(text); i += 64 {
